@@ -9575,6 +9575,9 @@ def _write_node(node, xml_tree=None, viewport_transform=None):
                 SVG_TAG_STYLE,
             ):
                 continue
+            if isinstance(node, Shape) and hasattr(node, key) and not getattr(node, key):
+                # A property that is zero now is left out below: its source text must not stand in for it.
+                continue
             xml_tree.set(key, str(value))
         return xml_tree
 
